@@ -31,8 +31,13 @@ def run(ctx):
     l2, s2 = cc.run_scenarios(ctx, [x + 300 for x in seeds] + [x + 350 for x in seeds], 150 if q else 400, extra=cc.VRF, halt_ok=True)
     l3, s3 = cc.run_scenarios(ctx, [x + 600 for x in seeds[:max(2, len(seeds) // 3)]], 150 if q else 400, extra=["-mintransact", "3"], halt_ok=True)
     l4, s4 = cc.run_scenarios(ctx, [x + 700 for x in seeds], 150 if q else 400, extra=["-tinystake", "-validators", "5", "-debond", "0"], halt_ok=True)
-    lines += l2 + l3 + l4
-    sums += s2 + s3 + s4
+    # long epochs, five validators, committees of up to three workers: room for runtime descriptor updates, mid-epoch re-elections
+    # (evidence in the block after a committee was enlarged) and rounds finalized by the re-elected committee within one epoch; vaults
+    l5, s5 = cc.run_scenarios(ctx, [x + 800 for x in seeds] + [x + 850 for x in seeds[:2]], 240 if q else 480,
+                              extra=["-validators", "5", "-maxgroup", "3", "-epoch", "12"], halt_ok=True)
+    l6, s6 = cc.run_scenarios(ctx, [x + 900 for x in seeds[:max(2, len(seeds) // 3)]], 150 if q else 400, extra=["-vault"], halt_ok=True)
+    lines += l2 + l3 + l4 + l5 + l6
+    sums += s2 + s3 + s4 + s5 + s6
     t = cc.totals(sums)
     for s in sums:
         for p in (s.get("panics") or [])[:2]:
